@@ -14,9 +14,10 @@
     * `Biotype[name].name` is the FIRST name declared with that value (aliases collapse) — `Gen.biotypes`;
     * `max(strands, key=strands.count)` is the first strand with the greatest count;
     * `SeqFeature(location, strand=s)` overwrites the strand of every part;
-    * `Location.to_biopython()` lists the blocks in ascending order for BOTH strands (Biopython itself expects the
-      parts of a minus-strand location 5'→3', i.e. descending: F-C12b) — switch `currentMinusPartsDescending`;
-    * `add_cds_feature` never writes `/codon_start` (F-C12a) — switch `currentWriterEmitsCodonStart`.
+    * `Location.to_biopython()` lists the blocks in ascending order for BOTH strands; Biopython expects the parts of a
+      minus-strand location 5'→3' (descending) — the writer reverses them since 3396281 (F-C12b); switch
+      `currentMinusPartsDescending` (`false` = the code before that fix);
+    * `add_cds_feature` writes `/codon_start` since bc2bc66 (F-C12a); switch `currentWriterEmitsCodonStart`.
 
   Only the vocabulary (`Spec.Gb.*` structures, `Spec.Qual.QDict`) is imported from Spec.
 -/
@@ -309,9 +310,13 @@ def childrenOf (c : Coll) : List Item :=
   let fcs := c.items.filter fun | .fcoll _ => true | _ => false
   (genes ++ fcs).mergeSort fun a b => decide (itemStart a ≤ itemStart b)
 
-/-- the loop of `collection_to_genbank` over one collection -/
-def writeModel (cfg : Cfg) (c : Coll) : R (List Rec) := do
-  let rs ← mapMR (itemToFeatures cfg c.seq) (childrenOf c)
-  pure rs.flatten
+/-- the loop of `collection_to_genbank` over one collection
+    (`GenBankExportError` when the collection has no sequence) -/
+def writeModel (cfg : Cfg) (c : Coll) : R (List Rec) :=
+  if c.seq.isNone then .error .Export
+  else
+    match mapMR (itemToFeatures cfg c.seq) (childrenOf c) with
+    | .error e => .error e
+    | .ok rs => .ok rs.flatten
 
 end BioCantor.Model.Gb
